@@ -7,7 +7,7 @@ COQ_TARGETS = ["Properties/C16.vo"]
 THEOREMS = ["C16_from_labels_wf", "C16_from_labels_complete", "C16_dotted_complete", "C16_dotted_wf",
             "C16_wire_wf", "C16_join", "C16_make_subdomain", "C16_case_insensitive",
             "C16_label_case_insensitive", "C16_dotted_roundtrip", "C16_subdomain_is_suffix",
-            "C16_zones_get_longest_suffix"]
+            "C16_zones_get_longest_suffix", "C16_wire_case_insensitive"]
 RULE = ("cases: label sequences with lengths from {0,1,2,62,63,64} and totals sweeping 250..260, dotted strings over an "
         "alphabet with '.', both cases, empty labels and non-ASCII, wire names with/without pointers, origin joins, "
         "zone selection; non-trivial = distinct case line whose model result is not the trivial rejection of an empty input")
